@@ -39,6 +39,10 @@ static Outcome run_case(const Kind &B, const Holder &like, const std::string &in
         struct sigaction sa; memset(&sa, 0, sizeof sa); sa.sa_sigaction = child_sig; sa.sa_flags = SA_SIGINFO | SA_NODEFER;
         static char alt[1 << 15]; stack_t ss; ss.ss_sp = alt; ss.ss_size = sizeof alt; ss.ss_flags = 0; sigaltstack(&ss, nullptr); sa.sa_flags |= SA_ONSTACK;
         int sigs[] = {SIGSEGV, SIGBUS, SIGABRT, SIGFPE, SIGILL, SIGALRM}; for (int s: sigs) sigaction(s, &sa, nullptr);
+        // transports 4 and 5: the application ignores (FILE transport) or blocks (stream transport) SIGABRT; "terminates the
+        // process" must not depend on the application's signal state
+        if (tr == 4) { signal(SIGABRT, SIG_IGN); tr = T_FILE; }
+        else if (tr == 5) { signal(SIGABRT, SIG_DFL); sigset_t m; sigemptyset(&m); sigaddset(&m, SIGABRT); sigprocmask(SIG_BLOCK, &m, nullptr); tr = T_STREAM; }
         // the child's stderr (library messages, and the reports of gcc's libubsan, which ignores log_path) goes to a file next to
         // the event log whose name the runner's sanitizer-log parser picks up
         int dn = g_child_err.empty() ? open("/dev/null", O_WRONLY) : open(g_child_err.c_str(), O_WRONLY | O_CREAT | O_APPEND, 0600); if (dn < 0) dn = open("/dev/null", O_WRONLY); dup2(dn, 2);
@@ -95,7 +99,7 @@ static std::string classify(const Outcome &o, int tr, std::string &cls) {
         cls = "terminated:sig" + std::to_string(o.sig); return "";
     }
     if (o.returned) {
-        bool clean = tr == T_FILE ? true : o.stream_good;
+        bool clean = (tr == T_FILE || tr == 4) ? true : o.stream_good;
         if (!clean) { cls = "returned:stream-failed"; return ""; }
         if (o.null_obj) { cls = "returned:null-object-clean-stream"; return "import:returned-null-with-clean-stream"; }
         if (o.reexport_crashed || (o.sig && o.returned)) { cls = "accepted:object-unusable"; return "import:accepted-partial-object"; }
@@ -108,9 +112,9 @@ static std::string classify(const Outcome &o, int tr, std::string &cls) {
 static void record(const std::string &mode, const Kind &A, const Kind &B, int tr, const Outcome &o, const J &ctx) {
     std::string cls; std::string key = classify(o, tr, cls);
     out.evaluations++;
-    tally[mode + "|" + B.name + "|" + (tr == 1 ? "file" : tr == 0 ? "stream" : "stream-with-exception-mask") + "|" + cls]++;
+    tally[mode + "|" + B.name + "|" + (tr == 1 ? "file" : tr == 0 ? "stream" : tr == 4 ? "file-SIGABRT-ignored" : tr == 5 ? "stream-SIGABRT-blocked" : "stream-with-exception-mask") + "|" + cls]++;
     if (!key.empty()) {
-        J d = ctx; d.s("mode", mode).s("exported_as", A.name).s("imported_as", B.name).s("transport", tr == 1 ? "FILE" : tr == 0 ? "stream" : tr == 2 ? "stream, exceptions(failbit|badbit)" : "stream, exceptions(failbit|badbit|eofbit)").s("outcome", cls).i("signal", o.sig).u("fault_addr", o.addr).i("consumed", o.consumed);
+        J d = ctx; d.s("mode", mode).s("exported_as", A.name).s("imported_as", B.name).s("transport", tr == 1 ? "FILE" : tr == 0 ? "stream" : tr == 2 ? "stream, exceptions(failbit|badbit)" : tr == 3 ? "stream, exceptions(failbit|badbit|eofbit)" : tr == 4 ? "FILE, SIGABRT ignored by the application" : "stream, SIGABRT blocked by the application").s("outcome", cls).i("signal", o.sig).u("fault_addr", o.addr).i("consumed", o.consumed);
         out.viol(key + ":" + mode + ":" + B.name, d);
     }
 }
@@ -157,7 +161,8 @@ int main(int argc, char **argv) {
                 while (s.size() < (size_t) max_offsets) s.insert(rng.below(len));
                 offs.assign(s.begin(), s.end());
             }
-            for (size_t L: offs) for (int tr = 0; tr < 4; tr++) {
+            for (size_t L: offs) for (int tr = 0; tr < 6; tr++) {
+                if (tr >= 4 && L % 5 != (size_t) (tr - 4)) continue;      // signal-state variants: a fifth of the offsets each
                 if (!mine()) continue;
                 VH_OP("prefix:%s:%zu", K[i].name.c_str(), L);
                 Outcome o = run_case(K[i], *objs[i], full.substr(0, L), tr);
@@ -193,6 +198,12 @@ int main(int argc, char **argv) {
         { std::string nz(65536, 0); Rng r2(seed + 99); for (auto &ch: nz) { uint32_t v = r2.below(8); ch = v < 3 ? '\n' : v == 3 ? '\r' : (char) r2.below(256); } hostile.push_back({"binary-noise-with-empty-lines", nz}); }
         for (size_t b = 0; b < K.size(); b++) {
             std::vector<std::pair<std::string, std::string>> hs = hostile;
+            // a complete, well-formed text section of a kind the library does not know, followed by a valid export of the requested
+            // type: the first title line does not match, whatever follows it
+            for (const char *title: {"CERTIFICATE", "LWE PARAMS", "lweparams", "TFHE KEY V2", "X"}) {
+                std::string sec = std::string("-----BEGIN ") + title + "-----\nn: 3\nalpha_min: 0.1\nMIIBIjANBgkqhkiG9w0BAQEFAAOCAQ8A\n-----END " + title + "-----\n";
+                hs.push_back({std::string("foreign-section(") + title + ")-then-valid-export", sec + bytes[b]});
+            }
             // (a valid export behind blank lines is not used: the stream transport skips leading white space and then reads a
             // complete, correct object, which the property does not forbid)
             for (auto &h: hs) for (int tr = 0; tr < 2; tr++) {
